@@ -716,6 +716,8 @@ fn c18_spec(rng: &mut Rng) -> Spec {
     s.arrays = rng.chance(1, 2);
     s.out_dirs = rng.chance(1, 4);
     s.force = false;
+    // "not forced" by the documented default instead of an explicit call
+    s.force_implicit = !s.out_dirs && rng.chance(1, 3);
     s
 }
 
